@@ -17,7 +17,6 @@ import (
 	"strconv"
 	"strings"
 
-	"golang.org/x/tools/go/ssa"
 	"gopkg.in/yaml.v3"
 )
 
@@ -98,32 +97,13 @@ func extractConstraints(w *World, r *Run, rule string) (*cfgConstraints, bool) {
 			return nil, false
 		}
 	}
-	// feeder registry
-	ft := w.lookup(pOmni, "Feeder")
-	consts := map[string]string{}
-	scope := w.pkg(pOmni).Types.Scope()
-	for _, n := range scope.Names() {
-		if k, ok := scope.Lookup(n).(*types.Const); ok && ft != nil && types.Identical(k.Type(), ft.Type()) {
-			consts[k.Val().ExactString()] = n
-		}
-	}
-	if initFn := w.funcs[pOmni+".init"]; initFn != nil {
-		for _, b := range initFn.Blocks {
-			for _, in := range b.Instrs {
-				if mu, ok := in.(*ssa.MapUpdate); ok {
-					k, ok1 := mu.Key.(*ssa.Const)
-					v, ok2 := mu.Value.(*ssa.Const)
-					if ok1 && ok2 && ft != nil && types.Identical(v.Type(), ft.Type()) {
-						if s, ok := constString(k); ok {
-							c.feederNames[s] = consts[v.Value.ExactString()]
-						}
-					}
-				}
-			}
-		}
+	// feeder registry (by evaluation, see rules_registry.go)
+	reg := feederRegistry(w)
+	for name, v := range reg.byName {
+		c.feederNames[name] = reg.consts[v]
 	}
 	if len(c.feederNames) < 2 {
-		r.Undecided(rule, "omniwitness.feederByName", "", "feeder registry not recognised")
+		r.Undecided(rule, "omniwitness feeder registry", "", "feeder registry not recognised")
 		return nil, false
 	}
 	// ParseFeeder normalisation
@@ -394,37 +374,10 @@ func ruleShippedConfig(w *World, r *Run, rule string) {
 // feedFuncEnums maps each FeedLog entry point to the name of the Feeder constant that FeedFunc resolves to it.
 func feedFuncEnums(w *World) map[string]string {
 	out := map[string]string{}
-	ft := w.lookup(pOmni, "Feeder")
-	fn := w.fn(fnFeedFunc)
-	if ft == nil || fn == nil {
-		return out
-	}
-	consts := map[string]string{}
-	scope := w.pkg(pOmni).Types.Scope()
-	for _, n := range scope.Names() {
-		if c, ok := scope.Lookup(n).(*types.Const); ok && types.Identical(c.Type(), ft.Type()) {
-			consts[c.Val().ExactString()] = n
-		}
-	}
-	fp := recvParam(fn)
-	e := w.engine(4, 1)
-	for _, s := range e.Explore(fn) {
-		if s.Panic || len(s.Rets) != 1 {
-			continue
-		}
-		ret := s.Rets[0]
-		for v, n := range consts {
-			if k, val, _ := eqConstFact(s, fp, v); k && val && ret.Kind == "func" {
-				out[strings.TrimSuffix(ret.Name, "")] = n
-			}
-		}
-		if ret.Kind == "lookup" && ret.Args[0].Kind == "maplit" {
-			m := ret.Args[0]
-			for i := 0; i+1 < len(m.Args); i += 2 {
-				if m.Args[i].Kind == "const" && m.Args[i+1].Kind == "func" {
-					out[m.Args[i+1].Name] = consts[m.Args[i].Name]
-				}
-			}
+	reg := feederRegistry(w)
+	for v, t := range reg.impl {
+		if t != nil {
+			out[t.Name] = reg.consts[v]
 		}
 	}
 	return out
